@@ -28,7 +28,7 @@ LEVEL_NOTE = ('Only cube packages fitted at tabulated wavelengths are covered (t
 RULE = ("cases: package configurations; executions: one plot() call per (n selected, display mode, input form), one evaluation per (fit, filter) point compared; non-trivial = distinct "
         "(configuration, n selected, mode, form) with more than one curve or more than one selected fit")
 ASSUMPTIONS = ["results come from cube packages fitted at tabulated wavelengths", "tolerance 2e-3 for the rounded physical constants"]
-REQUIRED_CLASSES = ['whole-curve-identity', 'best-fit-exactly-tied', 'invalid-rows-before-selected-models', 'model-names-sharing-their-first-31-characters', 'mode-interp', 'mode-largest', 'mode-largest+smallest', 'mode-all', 'multi-aperture', 'single-aperture', 'mixed-theta', 'form-object', 'form-file', 'five-fits',
+REQUIRED_CLASSES = ['law-queried-then-regridded-before-the-fit', 'whole-curve-identity', 'best-fit-exactly-tied', 'invalid-rows-before-selected-models', 'model-names-sharing-their-first-31-characters', 'mode-interp', 'mode-largest', 'mode-largest+smallest', 'mode-all', 'multi-aperture', 'single-aperture', 'mixed-theta', 'form-object', 'form-file', 'five-fits',
                     'distance-dependent', 'distance-independent', 'cube-wav-ascending', 'several-sources-one-call', 'apertures-stored-decreasing', 'cube-in-Jy', 'second-package-same-names', 'same-call-twice', 'law-in-other-unit', 'filter-wavelengths-in-mixed-units']
 TIMEOUT = {'quick': 600, 'thorough': 3000}
 
@@ -224,6 +224,11 @@ def run_case(ctx, case, rec, d):
     law = fc.law_object(case.get('law', 'power'))
     if case.get('law', 'power') != 'power':
         rec.cls('law-in-other-unit')
+    if case.get('_deviations', 0) % 2 == 1:
+        # the law object has a history: it was queried once, then its wavelength column was replaced (a slightly stretched grid)
+        law.get_av(np.array([0.55, 2.0]) * u.micron)
+        law.wav = law.wav * 1.05
+        rec.cls('law-queried-then-regridded-before-the-fit')
     # the filter wavelengths may each come in their own length unit
     wq = [WAV[b] * u.micron for b in BANDS]
     if case.get('wunit') == 'first-in-Angstrom':
